@@ -78,7 +78,7 @@ def run(ctx):
             # a weightless set that carries an evidence: the shape of every SMC result (to_standard_samples)
             kw.update(log_evidence=-7.5, log_evidence_error=0.25)
             scal = {"log_evidence": -7.5, "log_evidence_error": 0.25}
-        s = classes[cname](x, xp=xp, dtype=dt, parameters=[f"p{k}" for k in range(d)], **kw)
+        s = classes[cname](x, xp=xp, dtype=dt, parameters=["zeta", "alpha", "mu"][:d], **kw)
         if cname == "Samples" and all(has):
             scal = {"log_evidence": nsutil.to_float(s.log_evidence), "log_evidence_error": nsutil.to_float(s.log_evidence_error)}
         ref = Ref([(i, 100 + i if has[0] else None, 200 + i if has[1] else None, 300 + i if has[2] else None) for i in range(n)], has, scal)
@@ -144,6 +144,10 @@ def run(ctx):
                 ok_seq = False
                 break
             if not check_fields(ctx, s, cur_idx, x, has, cname, dict(case, ops=ops), scal=scal, ns=nsname, width=width):
+                ok_seq = False
+                break
+            if list(s.parameters) != ["zeta", "alpha", "mu"][:d]:
+                ctx.violation(f"parameter-names:{cname}", f"parameter names became {list(s.parameters)} (columns are still in the original order)", dict(case, ops=ops))
                 ok_seq = False
                 break
         nseq += 1
